@@ -14,16 +14,16 @@ PROPS = {
     "C04": dict(groups=["rulelookup"], families=["zone", "lookup"], level="proof", errkind_matters=False, theorems=["TzVerif.C04." + t for t in ["day_notations","accepted_shape","evaluated_correctly_partial","changes_only_at_instants","year_guard","refusal_is_out_of_range","counterexample"]]),
     "C05": dict(groups=["find", "leap"], families=["zone", "find"], level="proof", errkind_matters=False, theorems=["TzVerif.C05." + t for t in ['results_show_the_local_time_partial', 'no_instant_missing_partial', 'no_duplicates_partial', 'counterexample_F2']]),
     "C06": dict(groups=["find"], families=["zone", "find"], level="proof", errkind_matters=False, theorems=["TzVerif.C06." + t for t in ['reported_gaps_are_real_partial', 'every_gap_reported_partial', 'gaps_reported_once_partial', 'ascending_partial', 'unique_iff', 'earliest_is_first', 'latest_is_last']]),
-    "C07": dict(groups=["hostile"], families=["tzif", "tzfooter"], level="exploration", errkind_matters=False, theorems=[], special="c07", flavour="dev"),
+    "C07": dict(groups=["hostile"], families=["tzif", "tzfooter"], level="proof", errkind_matters=False, theorems=["TzVerif.C07." + t for t in ['site_inventory_unchanged', 'days_since_unix_epoch_fits', 'unix_time_fits', 'overflow_is_not_possible_comments', 'rule_day_unix_time_fits', 'from_timespec_casts_lossless', 'from_timespec_year_fits', 'unreachable_week_arm', 'unreachable_designation_length', 'lookup_indexes_in_bounds', 'allocation_bounded_by_input', 'header_products_fit_usize', 'tz_offset_arithmetic_fits', 'tz_rule_time_arithmetic_fits']], special="c07", flavour="dev"),
     "C08": dict(groups=["tzifgen", "tzifiana"], families=["tzif", "tzifgen", "tzifbad"], level="proof", errkind_matters=False, theorems=["TzVerif.C08." + t for t in ['big_endian_roundtrip', 'decode_encode_v1', 'decode_encode_v2_v3', 'bad_magic', 'bad_version', 'inconsistent_counts', 'truncated_block', 'truncated_v1', 'trailing_bytes_v1', 'type_record', 'indicator_pairs', 'accepted_files_are_well_formed', 'legacy_counterexample']]),
-    "C09": dict(groups=["tzstr"], families=["tzfooter"], level="exploration", errkind_matters=False, theorems=[]),
+    "C09": dict(groups=["tzstr"], families=["tzfooter"], level="proof", errkind_matters=False, theorems=["TzVerif.C09." + t for t in ['reader_is_grammar', 'parser_is_reference', 'parse_complete', 'parse_sound', 'ascii_only', 'footer']]),
     "C10": dict(groups=["iana"], families=["tzif", "zone", "lookup", "find"], level="other", errkind_matters=False, theorems=[], special="c10"),
     "C11": dict(groups=["rulenew", "rulepairs"], families=["rulenew"], level="exploration", errkind_matters=True, theorems=[], exhaustive=True),
     "C12": dict(groups=["leap"], families=["zone", "lookup", "find", "dtfrom"], level="proof", errkind_matters=False, theorems=["TzVerif.C12." + t for t in ['to_utc_correct', 'takes_effect_exactly', 'to_utc_monotone', 'to_count_monotone', 'roundtrip', 'to_count_total', 'inserted_shares', 'deleted_skips', 'legacy_counterexample']]),
     "C13": dict(groups=["zonenew", "lttnew"], families=["zonenew", "lttnew", "zone"], level="proof", errkind_matters=True, theorems=["TzVerif.C13." + t for t in ['accepts_iff', 'new_iff', 'errors_specific', 'saturating_spacing', 'saturating_step', 'rule_clause_compares_all', 'local_time_type_iff', 'local_time_type_errors', 'designation_alphabet']]),
-    "C14": dict(groups=["dt", "zonelookup", "find"], families=["dtnew", "dtfromlocal", "dttn", "dtcmp", "dtfrom", "find"], level="proof", errkind_matters=False, theorems=["TzVerif.C14." + t for t in ['new_correct', 'new_invariant', 'from_timespec_and_local', 'from_timespec_and_local_accepts', 'from_timespec_zone', 'from_total_nanoseconds', 'from_total_nanoseconds_and_local', 'projection', 'search_entries', 'equality', 'ordering']]),
+    "C14": dict(groups=["dt", "zonelookup", "find"], families=["dtnew", "dtfromlocal", "dttn", "dtcmp", "dtfrom", "dtfromtn", "find"], level="proof", errkind_matters=False, theorems=["TzVerif.C14." + t for t in ['new_correct', 'new_invariant', 'from_timespec_and_local', 'from_timespec_and_local_accepts', 'from_timespec_zone', 'from_total_nanoseconds', 'from_total_nanoseconds_and_local', 'projection', 'search_entries', 'equality', 'ordering']]),
     "C15": dict(groups=["threads"], families=["threads", "lookup", "find", "findn", "dtfrom", "tzifgen"], level="other", errkind_matters=False, theorems=[], special="c15"),
-    "C16": dict(groups=["tn", "dt"], families=["utctn", "dttn", "utcnew"], level="proof", errkind_matters=False,
+    "C16": dict(groups=["tn", "dt", "zonelookup"], families=["utctn", "dttn", "utcnew", "dtfromtn"], level="proof", errkind_matters=False,
                 theorems=["TzVerif.C16." + t for t in ["split_correct", "split_range", "recombine", "roundtrip", "roundtrip'", "recombine_fits_i128",
                                                        "utc_from_total", "dt_from_total_local", "dt_from_total_zone", "nanoseconds_refused"]]),
     "C17": dict(groups=["findn"], families=["findn", "find", "zone"], level="proof", errkind_matters=False, theorems=["TzVerif.C17." + t for t in ['push_all', 'tail_untouched', 'accessors_agree', 'same_search']]),
